@@ -15,7 +15,9 @@ import (
 // C02: the in-memory registry follows the reference semantics.
 // Cases are histories of "mem …" lines, starting with "mem init <immutable>".
 
-func init() { engines["C02"] = func() Engine { return &memEngine{prop: "C02"} } }
+func init() {
+	engines["C02"] = func() Engine { return &memEngine{prop: "C02"} }
+}
 
 type memEngine struct{ prop string }
 
@@ -225,6 +227,9 @@ func (u *memUniverse) genOp(rng *RNG, writers *[]string) string {
 
 func (e *memEngine) Gen(rng *RNG, tier string) []Case {
 	var cases []Case
+	if e.prop == "C14" {
+		cases = append(cases, c14Directed(rng)...)
+	}
 	n, maxLen := 600, 40
 	if tier == "thorough" {
 		n, maxLen = 8000, 200
